@@ -1148,7 +1148,7 @@ func TestConcurrentReads(t *testing.T) {
 	if !raceEnabled && os.Getenv("VERIF_WORK") != "" {
 		ev.R.Broken("C19 must be built with -race (meta.d/C19.json: race=true)")
 	}
-	ev.SetChecks(ev.Scale(40, 2000))
+	ev.SetChecks(ev.Scale(40, 1000))
 	rapid.Check(t, func(rt *rapid.T) {
 		c := genCase(rt, false)
 		sub, detail, res := evaluate(c)
@@ -1175,7 +1175,7 @@ func TestConcurrentReads(t *testing.T) {
 
 // TestSequentialImmutability: every operation kind x every input, alone; the inputs must equal their untouched twin after each call.
 func TestSequentialImmutability(t *testing.T) {
-	ev.SetChecks(ev.Scale(60, 6000))
+	ev.SetChecks(ev.Scale(60, 3000))
 	rapid.Check(t, func(rt *rapid.T) {
 		c := genCase(rt, true)
 		sub, detail, nops := sequentialCheck(c)
